@@ -314,6 +314,8 @@ struct PeerRt<I: HInp, P: InputPredictor<I> + 'static> {
     half: usize,
     neighbours: Vec<Addr>,
     synced_all: bool,
+    /// harness-side knowledge: inputs were submitted and the frame they are for has not been consumed yet
+    inputs_pending: bool,
 }
 
 struct SpecRt<I: HInp, P: InputPredictor<I> + 'static> {
@@ -654,6 +656,7 @@ pub fn run_typed<I: HInp, P: InputPredictor<I> + 'static>(sc: &Scenario, opts: &
             half: 0,
             neighbours: crate::gen::neighbours(sc, peer_addr(p)),
             synced_all: false,
+            inputs_pending: false,
         });
     }
     let mut specs: Vec<SpecRt<I, P>> = Vec::new();
@@ -977,7 +980,10 @@ fn tick_peer<I: HInp, P: InputPredictor<I> + 'static>(
     for &h in &pe.out.handles {
         let v = true_input(sc.seed, h, before, vals);
         match s.add_local_input(h, I::from_v(v)) {
-            Ok(()) => submitted.push((h, v)),
+            Ok(()) => {
+                submitted.push((h, v));
+                pe.inputs_pending = true;
+            }
             Err(e) => viols.push(Viol { prop: "C16", clause: "add_local_input_valid".into(), msg: format!("add_local_input({h}) for a local player failed: {e:?}"), node: node.clone(), tick }),
         }
     }
@@ -1035,6 +1041,9 @@ fn tick_peer<I: HInp, P: InputPredictor<I> + 'static>(
                 pe.game.st.frame = cur;
             }
             let d = cur - before;
+            if d == 1 {
+                pe.inputs_pending = false;
+            }
             if d != 0 && d != 1 {
                 viols.push(Viol { prop: "C02", clause: "C02.delta".into(), msg: format!("current_frame() moved by {d} in one call"), node: node.clone(), tick });
             }
@@ -1332,13 +1341,17 @@ fn misuse<I: HInp, P: InputPredictor<I> + 'static>(pe: &mut PeerRt<I, P>, kind: 
     let r = catch_unwind(AssertUnwindSafe(|| -> (bool, String) {
         match kind {
             0 => {
+                if is_local {
+                    return (true, "skipped (valid call)".into());
+                }
                 let r = s.add_local_input(h, I::from_v(1));
-                (matches!(r, Err(GgrsError::InvalidRequest { .. })) || is_local, format!("add_local_input({h}) -> {r:?}"))
+                (matches!(r, Err(GgrsError::InvalidRequest { .. })), format!("add_local_input({h}) -> {r:?}"))
             }
             1 => {
                 // advance with an input missing / before synchronisation; only a misuse when nothing is pending
-                let pending = s.verif_buffers().pending_local_inputs;
-                if pending != 0 || pe.out.handles.is_empty() {
+                // whether inputs are pending is the harness's own knowledge (submitted, frame not yet consumed),
+                // not read from the session
+                if pe.inputs_pending || pe.out.handles.is_empty() {
                     s.poll_remote_clients();
                     return (true, "skipped (inputs pending)".into());
                 }
